@@ -179,6 +179,96 @@ def scenario_blocking(s, timeout, arrive_at, n_arrivals):
     return obs
 
 
+def scenario_task_drain(s, n_queued, timeout, stop_before, extra_read):
+    """H3: get_next_signal called from a TASK thread (it waits through the task's stoppable wait): signals already
+    queued must be returned at once, oldest first, also when the task has been asked to stop."""
+    import threading as real_threading
+    import logging
+    import qmi.core.task as T
+    from qmi.core.pubsub import QMI_SignalReceiver, QMI_SignalMessage
+    from qmi.core.messaging import QMI_MessageHandlerAddress as Addr
+    from qmi.core.exceptions import QMI_TimeoutException, QMI_TaskStopException
+    logging.disable(logging.CRITICAL)
+    r = QMI_SignalReceiver(8)
+    obs = {"reads": [], "t0": None}
+    s.obs = obs
+    import dsched
+    go = dsched.Event()       # cooperative: a real Event would block the managed thread outside the scheduler
+
+    class Runner:
+        _context = None
+        _thread = None
+
+    class Drain(T.QMI_Task):
+        def run(self):
+            go.wait()
+            obs["t0"] = s.clock
+            for k in range(n_queued + (1 if extra_read else 0)):
+                try:
+                    sig = r.get_next_signal(timeout)
+                    obs["reads"].append(("sig", sig.args[0], sig.receiver_seqnr, s.clock))
+                except QMI_TimeoutException:
+                    obs["reads"].append(("timeout", None, None, s.clock))
+                except QMI_TaskStopException:
+                    obs["reads"].append(("stop", None, None, s.clock))
+    runner = Runner()
+    th = T._TaskThread(runner, "t", Drain, (), {})
+    runner._thread = th
+    th.start()
+    th.wait_until_initialized()
+    st, exc = th.get_state()
+    if st != T._TaskThread.State.READY_TO_RUN:
+        raise RuntimeError("task could not be constructed: %r %r" % (st, exc))
+    th.start_task()
+    for k in range(n_queued):
+        r._receive_signal(QMI_SignalMessage(Addr("c", "p"), Addr("c", "$pubsub"), "sig", (k,)))
+    if stop_before:
+        th.stop_task()
+    go.set()
+    th.join()
+    return obs
+
+
+def oracle_task_drain(n_queued, timeout, stop_before, extra_read, res):
+    if res["status"] != "ok":
+        return "task reader did not finish (%s) %s" % (res["status"], str(res.get("trace") or "")[:300])
+    reads = res["obs"]["reads"]
+    t0 = res["obs"]["t0"]
+    for k in range(n_queued):
+        if k >= len(reads) or reads[k][0] != "sig" or reads[k][1] != k or reads[k][2] != k:
+            return ("with %d signal(s) queued%s, read #%d from the task thread gives %r instead of signal %d"
+                    % (n_queued - k, " and the task asked to stop" if stop_before else "", k, reads[k][:3] if k < len(reads) else None, k))
+        if abs(reads[k][3] - t0) > 1e-9:
+            return "a queued signal was returned only after waiting (t=%s, reads started at t=%s)" % (reads[k][3], t0)
+    if extra_read:
+        last = reads[n_queued] if len(reads) > n_queued else None
+        if last is None or last[0] == "sig":
+            return "a read on an empty queue returned %r" % (last,)
+    return None
+
+
+def run_task_drain(ck):
+    import dsched
+    import qmi.core.pubsub, qmi.core.messaging, qmi.core.task  # noqa
+    jobs, meta = [], []
+    for n in (1, 2, 3):
+        for timeout in (None, 0.0, 2.0):
+            for stop_before in (False, True):
+                extra = stop_before or timeout is not None      # an extra read on the empty queue must end (stop or timeout)
+                for i in range(2 if ck.tier == "quick" else 20):
+                    sh = (n, timeout, stop_before, extra)
+                    jobs.append((scenario_task_drain, sh, dict(strategy="random" if i % 2 else "pct", seed=ck.seed * 773 + i)))
+                    meta.append(sh)
+    for sh, res in zip(meta, dsched.run_forked(jobs, nproc=16, wall_timeout=30)):
+        ck.note_case(("task-drain", sh, tuple(res.get("choices") or ())), True)
+        ck.count("task-drain:%s" % res["status"])
+        why = oracle_task_drain(*sh, res)
+        if why:
+            ck.report("oracle:task-drain", "C09 (get_next_signal from a task thread) fails on the implementation: " + why,
+                      {"task_drain": True, "n_queued": sh[0], "timeout": sh[1], "stop_before": sh[2], "extra_read": sh[3],
+                       "schedule": res.get("choices")})
+
+
 def scenario_concurrent_arrivals(s, cap, pol, nthreads, per_thread):
     """H3: several threads deliver to one receiver at the same time (local publisher threads, the socket
     thread, ...); every source line of _receive_signal is a scheduling point."""
@@ -305,6 +395,7 @@ def run(ck):
     ck.assumptions = ["the history model uses get_next_signal(0); the blocking form is exercised separately (reader + arriver threads under dsched: returns at the arrival instant, times out at the deadline)",
                       "payloads are integers standing for arbitrary args tuples (the queue never inspects them)"]
     run_blocking(ck)
+    run_task_drain(ck)
     run_concurrent(ck)
     cases = gen_cases(ck)
     terms, metas = [], []
@@ -367,6 +458,14 @@ def replay(rep):
         import qmi.core.pubsub, qmi.core.messaging, qmi.core.task  # noqa
         res = dsched.run_forked([(scenario_concurrent_arrivals, tuple(c["args"]), dict(strategy="replay", schedule=list(c.get("schedule") or [])))], nproc=1)[0]
         why = oracle_concurrent(c["args"][0], c["args"][1], res)
+        print(res["status"], res.get("obs"), why or "property holds on this schedule")
+        return 1 if why else 0
+    if c.get("task_drain"):
+        import dsched
+        import qmi.core.pubsub, qmi.core.messaging, qmi.core.task  # noqa
+        sh = (c["n_queued"], c["timeout"], c["stop_before"], c["extra_read"])
+        res = dsched.run_forked([(scenario_task_drain, sh, dict(strategy="replay", schedule=list(c.get("schedule") or [])))], nproc=1)[0]
+        why = oracle_task_drain(*sh, res)
         print(res["status"], res.get("obs"), why or "property holds on this schedule")
         return 1 if why else 0
     if c.get("blocking"):
